@@ -86,6 +86,8 @@ func (i *vectorAggIterator) Next(r *Step) bool {
 		agg    Aggregator
 	}
 	result := map[GroupingKey]*group{}
+	// Groups in order of first appearance, to make the output order deterministic.
+	var groups []*group
 
 	for _, s := range step.Samples {
 		metric := i.grouper(s.Set, i.groupLabels...)
@@ -98,13 +100,14 @@ func (i *vectorAggIterator) Next(r *Step) bool {
 				agg:    i.agg(),
 			}
 			result[groupKey] = g
+			groups = append(groups, g)
 		}
 		g.agg.Apply(s.Data)
 	}
 
 	r.Timestamp = step.Timestamp
 	r.Samples = r.Samples[:0]
-	for _, g := range result {
+	for _, g := range groups {
 		r.Samples = append(r.Samples, Sample{
 			Data: g.agg.Result(),
 			Set:  g.metric,
@@ -148,6 +151,8 @@ func (i *vectorAggHeapIterator) Next(r *Step) bool {
 		heap   *sampleHeap
 	}
 	result := map[GroupingKey]*group{}
+	// Groups in order of first appearance, to make the output order deterministic.
+	var groups []*group
 
 	for _, s := range step.Samples {
 		metric := i.grouper(s.Set, i.groupLabels...)
@@ -163,6 +168,7 @@ func (i *vectorAggHeapIterator) Next(r *Step) bool {
 			}
 
 			result[groupKey] = g
+			groups = append(groups, g)
 		}
 
 		switch {
@@ -180,7 +186,7 @@ func (i *vectorAggHeapIterator) Next(r *Step) bool {
 	}
 
 	r.Samples = r.Samples[:0]
-	for _, g := range result {
+	for _, g := range groups {
 		samples := g.heap.elements
 		slices.SortFunc(samples, func(a, b Sample) int {
 			if i.less(a, b) {
